@@ -307,9 +307,32 @@ def meta_cmd(rng):
     return name + rng.choice(["{a}+{b}", "(A)", "({a}{b})", "(1+1)", "{a} - 1", "=Foo"])
 
 
+BYTE_VALUES = ["0", "1", "2", "15", "16", "127", "128", "255", "256", "257", "-1", "-128", "-256", "$7F", "$FF", "0x10", "!4", "!1", "65535", "99999999999"]
+
+
+def arg_form(rng, body, eq=True):
+    """the spellings read_upper_command accepts for an 'I' / 'A' argument list"""
+    forms = ["(%s)", "(%s)", "(%s)", "( %s )", "(%s", " (%s)", "(%s);"]
+    if eq:
+        forms += ["=%s;", "=%s ", " = %s ", "%s "]
+    return rng.choice(forms) % body
+
+
+def port_cmd(rng):
+    k = rng.random()
+    if k < 0.82:
+        return rng.choice(["Port", "PORT"]) + arg_form(rng, rng.choice(BYTE_VALUES))
+    if k < 0.96:
+        return rng.choice(["Port", "PORT"]) + rng.choice(["()", "(,)", ";", "(1,2)", "(,3)", "(1,,)", "=;", "(1:2)"])
+    return rng.choice(["Port", "PORT"]) + rng.choice(["(1+1)", "(A)", "({3})", "(-X)"])
+
+
 def sys_cmd(rng):
     """one command of the families the pipeline model gained last"""
-    return meta_cmd(rng)
+    k = rng.random()
+    if k < 0.5:
+        return meta_cmd(rng)
+    return port_cmd(rng)
 
 
 def pipe_program(rng, size=None):
